@@ -108,10 +108,13 @@ impl StateMachine<'_> {
 
     #[inline]
     fn test_diff_header_plus_line(&self) -> bool {
-        (matches!(self.state, State::DiffHeader(_)) || self.source == Source::DiffUnified)
-            && (self.line.starts_with("+++ ")
-                || self.line.starts_with("rename to ")
-                || self.line.starts_with("copy to "))
+        // A "+++ " line is a header line only directly after the "--- " line (which sets the
+        // DiffHeader state, also for plain `diff -u` output). Inside a hunk of `diff -u` output
+        // it is an added line that starts with "++ ".
+        let in_diff_header = matches!(self.state, State::DiffHeader(_));
+        (in_diff_header && self.line.starts_with("+++ "))
+            || ((in_diff_header || self.source == Source::DiffUnified)
+                && (self.line.starts_with("rename to ") || self.line.starts_with("copy to ")))
     }
 
     /// Check for and handle the "+++ filename ..." line.
